@@ -7,6 +7,8 @@
  * leaves that regime ends as inconclusive, not as a pass. */
 #define H_EXTRA_ROWS
 #define H_COMPUTE_MUTATION_PARENTS
+#define SITE_ANC "AT"
+#define SITE_ANC_LEN 2
 #include "treegen.h"
 
 #ifndef NM
@@ -16,8 +18,8 @@
 static h_tables_t T;
 static tsk_id_t msite[NM + 1], mnode[NM + 1];
 static int mstate[NM + 1];
-static const char *states[3] = { "A", "C", "AT" }; /* "A" is the ancestral allele; "AT" has it as a prefix */
-static const int state_len[3] = { 1, 1, 2 };
+static const char *states[3] = { "AT", "A", "C" }; /* "AT" is the ancestral allele; the derived "A" is a prefix of it */
+static const int state_len[3] = { 2, 1, 1 };
 
 static void
 h_extra_rows(tsk_table_collection_t *t, h_tables_t *Tp)
